@@ -97,6 +97,13 @@ func (c *ClusterNode) RPCSendShard(args *RPCSendShardRequest, reply *RPCSendShar
 		if err := os.MkdirAll(filepath.Dir(shardPath), 0755); err != nil {
 			return fmt.Errorf("could not create shard directory: %w", err)
 		}
+		// A new transfer starts from scratch: chunks are appended below, so a
+		// partial file left behind by an interrupted transfer would otherwise
+		// stay in front of the re-sent data and the checksum could never
+		// match again.
+		if err := os.Remove(shardPath); err != nil && !os.IsNotExist(err) {
+			return fmt.Errorf("could not remove partial shard file: %w", err)
+		}
 	}
 	// Append to shard file, create if it doesn't exist
 	// Does this generate a lot of syscalls? If so, we can switch to buffered
